@@ -99,15 +99,15 @@ func execDirectFunction(vm *r.VM, funcName *r.IDName, params []r.Element) (r.Ele
 	if err != nil {
 		return nil, err
 	}
-	// pushCallFrame
-	fnCallFrame := r.NewFunctionCallFrame(module, nil)
-	vm.PushCallFrame(fnCallFrame)
-
-	// assert value is function type
+	// assert value is function type (before a frame is pushed: no call takes place otherwise)
 	fn, ok := elem.(*value.Function)
 	if !ok {
 		return nil, zerr.InvalidFuncVariable(funcName.GetLiteral())
 	}
+
+	// pushCallFrame
+	fnCallFrame := r.NewFunctionCallFrame(module, nil)
+	vm.PushCallFrame(fnCallFrame)
 
 	if elem, err := fn.Exec(nil, params); err != nil {
 		if isLoopSignal(err) {
